@@ -677,6 +677,15 @@ func runC14(p *Program, r *Report) {
 	checkSparseCursor(p, r, "R14g")
 	r.Rule("R14h", "MISSING-DECIDED-BY-LOOKUP: every result of the missing-positions method for a non-empty request is reached through look-ups of the node store, never through a configuration shortcut")
 	checkMissingByLookup(p, r, "R14h")
+	{
+		var es []*ssa.Function
+		for _, n := range []string{"AddProof", "GetProofSubset", "GetMissingPositions", "(*MapPollard).GetMissingPositions", "(*MapPollard).VerifyPartialProof"} {
+			if f := p.Func(n); f != nil {
+				es = append(es, f)
+			}
+		}
+		checkThreadedState(p, r, "R14i", es, 1)
+	}
 }
 
 // checkHeldTargetsUntouched (R14f): the stand-alone GetMissingPositions is
